@@ -31,6 +31,8 @@ pub enum Ty {
     BigInt,
     Bool,
     Text,
+    /// DOUBLE: stored, compared and shown, never computed with
+    Double,
 }
 
 #[derive(Clone, Debug)]
@@ -54,12 +56,22 @@ pub enum E {
     IsNull(bool, Box<E>),
     Between(bool, Box<E>, Box<E>, Box<E>),
     InList(bool, Box<E>, Vec<E>),
+    /// CASE [operand] WHEN .. THEN .. [ELSE ..] END: operand (simple CASE) or none (searched), arms, else
+    Case(Option<Box<E>>, Vec<(E, E)>, Option<Box<E>>),
+    /// UPPER / LOWER / LENGTH / LTRIM / RTRIM (the word of the case syntax: upper, lower, length, ltrim, rtrim)
+    StrFn(&'static str, Box<E>),
+    /// `a || b`
+    Concat(Box<E>, Box<E>),
 }
+
+pub const STR_FNS: [&str; 5] = ["upper", "lower", "length", "ltrim", "rtrim"];
 
 #[derive(Clone, Debug)]
 pub enum From {
     Table(usize),
     Join(&'static str, Box<From>, Box<From>, Option<E>),
+    /// derived table `(SELECT items FROM inner [WHERE w]) AS r`; its columns are c0, c1, …
+    Derived(Box<From>, Option<E>, Vec<E>),
 }
 
 #[derive(Clone, Debug)]
@@ -79,6 +91,8 @@ pub struct Select {
     pub order_by: Vec<(usize, bool)>,
     pub limit: Option<u64>,
     pub offset: Option<u64>,
+    /// HAVING, over the aggregate row (keys, then aggregates) — like `items` in an aggregate query
+    pub having: Option<E>,
 }
 
 #[derive(Clone, Debug)]
@@ -120,6 +134,13 @@ fn val_of_word(w: &str) -> Option<Val> {
     if let Some(r) = w.strip_prefix('t') {
         return unhex(r).map(Val::Text);
     }
+    if let Some(r) = w.strip_prefix('f') {
+        // the bit pattern of a double; NaNs are not values of the case syntax
+        if r.is_empty() || !r.bytes().all(|c| c.is_ascii_digit()) {
+            return None;
+        }
+        return r.parse::<u64>().ok().filter(|b| !f64::from_bits(*b).is_nan()).map(Val::F64);
+    }
     None
 }
 
@@ -129,6 +150,7 @@ fn ty_char(t: Ty) -> char {
         Ty::BigInt => 'B',
         Ty::Bool => 'O',
         Ty::Text => 'S',
+        Ty::Double => 'D',
     }
 }
 
@@ -158,6 +180,7 @@ fn parse_db(w: &str) -> Option<Vec<Table>> {
                 'B' => Some(Ty::BigInt),
                 'O' => Some(Ty::Bool),
                 'S' => Some(Ty::Text),
+                'D' => Some(Ty::Double),
                 _ => None,
             })
             .collect();
@@ -167,7 +190,12 @@ fn parse_db(w: &str) -> Option<Vec<Table>> {
             for r in rows.split('|') {
                 let vs: Option<Vec<Val>> = r.split(',').map(val_of_word).collect();
                 let vs = vs?;
-                if vs.len() != tys.len() || vs.iter().any(|v| matches!(v, Val::F64(_))) {
+                // a double lives in a DOUBLE column and nothing else does
+                if vs.len() != tys.len()
+                    || vs.iter().zip(&tys).any(|(v, t)| {
+                        matches!(v, Val::F64(_)) != (*t == Ty::Double) && *v != Val::Null
+                    })
+                {
                     return None;
                 }
                 rs.push(vs);
@@ -218,6 +246,15 @@ pub fn show_expr(e: &E, out: &mut Vec<String>) {
             out.push(if *neg { "notnull" } else { "isnull" }.into());
             show_expr(a, out)
         }
+        E::StrFn(f, a) => {
+            out.push(f.to_string());
+            show_expr(a, out)
+        }
+        E::Concat(a, b) => {
+            out.push("cat".into());
+            show_expr(a, out);
+            show_expr(b, out)
+        }
         E::Between(neg, a, b, c) => {
             out.push(if *neg { "nbtw" } else { "btw" }.into());
             show_expr(a, out);
@@ -229,6 +266,23 @@ pub fn show_expr(e: &E, out: &mut Vec<String>) {
             show_expr(a, out);
             for x in xs {
                 show_expr(x, out)
+            }
+        }
+        E::Case(x, arms, els) => {
+            out.push(format!("{}{}", if x.is_some() { "casex" } else { "case" }, arms.len()));
+            if let Some(x) = x {
+                show_expr(x, out)
+            }
+            for (c, r) in arms {
+                show_expr(c, out);
+                show_expr(r, out)
+            }
+            match els {
+                Some(e) => {
+                    out.push("else".into());
+                    show_expr(e, out)
+                }
+                None => out.push("noelse".into()),
             }
         }
     }
@@ -248,6 +302,15 @@ fn show_from(f: &From, out: &mut Vec<String>) {
                     out.push("on".into());
                     show_expr(e, out)
                 }
+            }
+        }
+        From::Derived(inner, w, items) => {
+            out.push("d".into());
+            show_from(inner, out);
+            show_where(w, out);
+            out.push(format!("p{}", items.len()));
+            for e in items {
+                show_expr(e, out);
             }
         }
     }
@@ -281,6 +344,10 @@ pub fn show_stmt(s: &Stmt) -> String {
                 if let Some(e) = &a.arg {
                     show_expr(e, &mut out)
                 }
+            }
+            if let Some(h) = &q.having {
+                out.push("hv".into());
+                show_expr(h, &mut out);
             }
             match &q.items {
                 None => out.push("star".into()),
@@ -357,15 +424,15 @@ fn num_after(pre: &str, w: &str) -> Option<usize> {
     r.parse().ok()
 }
 
+/// aggregate functions of the case syntax; the `…d` forms are AGG(DISTINCT …)
+pub const AGG_FNS: [&str; 11] = ["cnt*", "cnt", "sum", "avg", "min", "max", "cntd", "sumd", "avgd", "mind", "maxd"];
+
 const CMP_OPS: [&str; 6] = ["eq", "ne", "lt", "le", "gt", "ge"];
 const ARITH_OPS: [&str; 5] = ["add", "sub", "mul", "div", "mod"];
 
 fn p_expr(t: &mut Toks) -> Option<E> {
     let w = t.next()?;
     if let Some(v) = val_of_word(w) {
-        if matches!(v, Val::F64(_)) {
-            return None;
-        }
         return Some(E::Lit(v));
     }
     if let Some(k) = num_after("c", w) {
@@ -401,11 +468,39 @@ fn p_expr(t: &mut Toks) -> Option<E> {
             Some(E::Like(w == "nlike", Box::new(a), Box::new(b)))
         }
         "isnull" | "notnull" => Some(E::IsNull(w == "notnull", Box::new(p_expr(t)?))),
+        "upper" | "lower" | "length" | "ltrim" | "rtrim" => {
+            let f = STR_FNS.iter().find(|x| **x == w)?;
+            Some(E::StrFn(f, Box::new(p_expr(t)?)))
+        }
+        "cat" => {
+            let a = p_expr(t)?;
+            let b = p_expr(t)?;
+            Some(E::Concat(Box::new(a), Box::new(b)))
+        }
         "btw" | "nbtw" => {
             let a = p_expr(t)?;
             let b = p_expr(t)?;
             let c = p_expr(t)?;
             Some(E::Between(w == "nbtw", Box::new(a), Box::new(b), Box::new(c)))
+        }
+        _ if num_after("casex", w).is_some() || num_after("case", w).is_some() => {
+            let (simple, k) = match num_after("casex", w) {
+                Some(k) => (true, k),
+                None => (false, num_after("case", w)?),
+            };
+            let x = if simple { Some(Box::new(p_expr(t)?)) } else { None };
+            let mut arms = Vec::new();
+            for _ in 0..k {
+                let c = p_expr(t)?;
+                let r = p_expr(t)?;
+                arms.push((c, r));
+            }
+            let els = match t.next()? {
+                "else" => Some(Box::new(p_expr(t)?)),
+                "noelse" => None,
+                _ => return None,
+            };
+            Some(E::Case(x, arms, els))
         }
         _ => {
             let (neg, k) = if let Some(k) = num_after("nin", w) {
@@ -438,6 +533,15 @@ fn p_from(t: &mut Toks) -> Option<From> {
             _ => return None,
         };
         Some(From::Join(k, Box::new(l), Box::new(r), on))
+    } else if w == "d" {
+        let inner = p_from(t)?;
+        let wh = p_where(t)?;
+        let n = num_after("p", t.next()?)?;
+        let mut items = Vec::new();
+        for _ in 0..n {
+            items.push(p_expr(t)?);
+        }
+        Some(From::Derived(Box::new(inner), wh, items))
     } else {
         Some(From::Table(num_after("t", w)?))
     }
@@ -479,11 +583,16 @@ fn p_stmt(db: &[Table], ws: &[&str]) -> Option<Stmt> {
             let mut aggs = Vec::new();
             for _ in 0..na {
                 let f = t.next()?;
-                let f = ["cnt*", "cnt", "sum", "avg", "min", "max"].iter().find(|x| **x == f)?;
+                let f = AGG_FNS.iter().find(|x| **x == f)?;
                 let arg = if *f == "cnt*" { None } else { Some(p_expr(&mut t)?) };
                 aggs.push(Agg { f, arg });
             }
-            let p = t.next()?;
+            let mut p = t.next()?;
+            let mut having = None;
+            if p == "hv" {
+                having = Some(p_expr(&mut t)?);
+                p = t.next()?;
+            }
             let items = if p == "star" {
                 None
             } else {
@@ -506,7 +615,7 @@ fn p_stmt(db: &[Table], ws: &[&str]) -> Option<Stmt> {
             }
             let limit = p_opt_nat("lim", &mut t)?;
             let offset = p_opt_nat("off", &mut t)?;
-            Stmt::Select(Select { distinct, from, where_, group_by, aggs, items, order_by, limit, offset })
+            Stmt::Select(Select { distinct, from, where_, group_by, aggs, items, order_by, limit, offset, having })
         }
         "ins" => {
             let tb = num_after("t", t.next()?)?;
@@ -574,7 +683,10 @@ fn level(e: &E) -> u8 {
         E::Neg(..) | E::Pos(..) => 7,
         // a negative literal is written with a leading minus sign: it is a unary expression for the printer
         E::Lit(Val::Int(i)) if *i < 0 => 7,
-        E::Lit(..) | E::Col(..) => 8,
+        E::Lit(Val::F64(b)) if f64::from_bits(*b).is_sign_negative() => 7,
+        E::Lit(..) | E::Col(..) | E::Case(..) | E::StrFn(..) => 8,
+        // `||` binds like + and -
+        E::Concat(..) => 5,
     }
 }
 
@@ -584,7 +696,8 @@ fn sql_lit(v: &Val) -> String {
         Val::Int(i) => i.to_string(),
         Val::Bool(b) => if *b { "TRUE".into() } else { "FALSE".into() },
         Val::Text(s) => format!("'{}'", String::from_utf8_lossy(s).replace('\'', "''")),
-        Val::F64(b) => format!("{:e}", f64::from_bits(*b)),
+        // decimal notation with a fractional part (`2.0`, not `2`): a DOUBLE literal for the binder
+        Val::F64(b) => format!("{:?}", f64::from_bits(*b)),
     }
 }
 
@@ -611,6 +724,8 @@ pub fn sql_expr(e: &E, min: u8, col: &dyn Fn(usize) -> String) -> String {
             format!("{} {}LIKE {}", sql_expr(a, 5, col), if *neg { "NOT " } else { "" }, sql_expr(b, 5, col))
         }
         E::IsNull(neg, a) => format!("{} IS {}NULL", sql_expr(a, 5, col), if *neg { "NOT " } else { "" }),
+        E::StrFn(f, a) => format!("{}({})", f.to_uppercase(), sql_expr(a, 1, col)),
+        E::Concat(a, b) => format!("{} || {}", sql_expr(a, 5, col), sql_expr(b, 6, col)),
         E::Between(neg, a, lo, hi) => format!(
             "{} {}BETWEEN {} AND {}",
             sql_expr(a, 5, col),
@@ -634,6 +749,19 @@ pub fn sql_expr(e: &E, min: u8, col: &dyn Fn(usize) -> String) -> String {
             };
             format!("{} {} {}", sql_expr(a, l, col), o, sql_expr(b, l + 1, col))
         }
+        E::Case(x, arms, els) => {
+            let mut t = String::from("CASE");
+            if let Some(x) = x {
+                t += &format!(" {}", sql_expr(x, 1, col));
+            }
+            for (c, r) in arms {
+                t += &format!(" WHEN {} THEN {}", sql_expr(c, 1, col), sql_expr(r, 1, col));
+            }
+            if let Some(e) = els {
+                t += &format!(" ELSE {}", sql_expr(e, 1, col));
+            }
+            t + " END"
+        }
         // `- -x` needs the blank: `--` starts a comment
         E::Neg(a) => format!("- {}", sql_expr(a, 7, col)),
         E::Pos(a) => format!("+ {}", sql_expr(a, 7, col)),
@@ -647,11 +775,15 @@ fn sql_ty(t: Ty) -> &'static str {
         Ty::BigInt => "BIGINT",
         Ty::Bool => "BOOLEAN",
         Ty::Text => "TEXT",
+        Ty::Double => "DOUBLE",
     }
 }
 
-/// leaves of a FROM tree, left to right: (table, first column index in the joined row)
-fn leaves(f: &From, db: &[Table], out: &mut Vec<(usize, usize)>, width: &mut usize) {
+/// the table of a leaf that is a derived table (no such table: lookups in the database find nothing)
+pub const DERIVED_LEAF: usize = usize::MAX;
+
+/// leaves of a FROM tree, left to right: (table, first column index in the joined row); a derived table is one leaf
+pub fn leaves(f: &From, db: &[Table], out: &mut Vec<(usize, usize)>, width: &mut usize) {
     match f {
         From::Table(t) => {
             out.push((*t, *width));
@@ -661,28 +793,132 @@ fn leaves(f: &From, db: &[Table], out: &mut Vec<(usize, usize)>, width: &mut usi
             leaves(l, db, out, width);
             leaves(r, db, out, width);
         }
+        From::Derived(_, _, items) => {
+            out.push((DERIVED_LEAF, *width));
+            *width += items.len();
+        }
     }
 }
 
-fn from_tys(f: &From, db: &[Table]) -> Vec<Ty> {
+fn wider(a: Ty, b: Ty) -> Ty {
+    match (a, b) {
+        (Ty::BigInt, _) | (_, Ty::BigInt) => Ty::BigInt,
+        (Ty::Int, _) | (_, Ty::Int) => Ty::Int,
+        _ => a,
+    }
+}
+
+/// static type of an expression as the reference infers it (`inferTyO`); `None` for an untyped NULL
+pub fn expr_ty(e: &E, tys: &[Ty]) -> Option<Ty> {
+    match e {
+        E::Lit(Val::Int(v)) => Some(if (I32_MIN..=I32_MAX).contains(v) { Ty::Int } else { Ty::BigInt }),
+        E::Lit(Val::Text(_)) => Some(Ty::Text),
+        E::Lit(Val::Bool(_)) => Some(Ty::Bool),
+        E::Lit(Val::F64(_)) => Some(Ty::Double),
+        E::Lit(_) => None,
+        E::Col(i) => Some(tys.get(*i).copied().unwrap_or(Ty::BigInt)),
+        E::Neg(a) | E::Pos(a) => expr_ty(a, tys),
+        E::StrFn("length", _) => Some(Ty::Int),
+        E::StrFn(..) | E::Concat(..) => Some(Ty::Text),
+        E::Arith(_, a, b) => match (expr_ty(a, tys), expr_ty(b, tys)) {
+            (None, None) => None,
+            (ta, tb) => Some(wider(ta.unwrap_or(Ty::Bool), tb.unwrap_or(Ty::Bool))),
+        },
+        E::Case(_, arms, els) => {
+            let mut t: Option<Ty> = None;
+            for r in arms.iter().map(|(_, r)| r).chain(els.iter().map(|b| &**b)) {
+                t = match (t, expr_ty(r, tys)) {
+                    (None, b) => b,
+                    (a, None) => a,
+                    (Some(a), Some(b)) if a != b && matches!(a, Ty::Int | Ty::BigInt) && matches!(b, Ty::Int | Ty::BigInt) => {
+                        Some(Ty::BigInt)
+                    }
+                    (a, _) => a,
+                };
+            }
+            t
+        }
+        _ => Some(Ty::Bool),
+    }
+}
+
+pub fn from_tys(f: &From, db: &[Table]) -> Vec<Ty> {
+    match f {
+        From::Table(t) => db.get(*t).map(|t| t.tys.clone()).unwrap_or_default(),
+        From::Join(_, l, r, _) => {
+            let mut tys = from_tys(l, db);
+            tys.extend(from_tys(r, db));
+            tys
+        }
+        From::Derived(inner, _, items) => {
+            let tys = from_tys(inner, db);
+            items.iter().map(|e| expr_ty(e, &tys).unwrap_or(Ty::Bool)).collect()
+        }
+    }
+}
+
+/// does the FROM tree contain a join (at any depth)?
+pub fn has_join(f: &From) -> bool {
+    match f {
+        From::Table(_) => false,
+        From::Join(..) => true,
+        From::Derived(inner, ..) => has_join(inner),
+    }
+}
+
+/// does a derived table of the FROM tree have a WHERE of its own?
+pub fn has_derived_where(f: &From) -> bool {
+    match f {
+        From::Table(_) => false,
+        From::Join(_, l, r, _) => has_derived_where(l) || has_derived_where(r),
+        From::Derived(inner, w, _) => w.is_some() || has_derived_where(inner),
+    }
+}
+
+/// column naming of a FROM tree: column i of the joined row is `r<k>.c<j>` (k-th leaf, its j-th column)
+pub fn col_namer(f: &From, db: &[Table]) -> impl Fn(usize) -> String + 'static {
     let mut ls = Vec::new();
     let mut w = 0;
     leaves(f, db, &mut ls, &mut w);
-    ls.iter().flat_map(|(t, _)| db.get(*t).map(|t| t.tys.clone()).unwrap_or_default()).collect()
+    move |i: usize| -> String {
+        for (k, (_, start)) in ls.iter().enumerate().rev() {
+            if i >= *start {
+                return format!("r{}.c{}", k, i - start);
+            }
+        }
+        format!("r0.c{}", i)
+    }
 }
 
-fn sql_from(f: &From, next: &mut usize, col: &dyn Fn(usize) -> String) -> String {
+/// `(SELECT e0 AS c0, … FROM inner [WHERE w]) AS r<k>`; the inner query has its own scope (aliases r0, r1, … again)
+pub fn sql_derived(inner: &From, w: &Option<E>, items: &[E], k: usize, db: &[Table]) -> String {
+    let col = col_namer(inner, db);
+    let mut next = 0;
+    let list: Vec<String> = items.iter().enumerate().map(|(i, e)| format!("{} AS c{}", sql_expr(e, 1, &col), i)).collect();
+    let mut s = format!("(SELECT {} FROM {}", list.join(", "), sql_from(inner, db, &mut next, &col));
+    if let Some(w) = w {
+        s += &format!(" WHERE {}", sql_expr(w, 1, &col));
+    }
+    s + &format!(") AS r{}", k)
+}
+
+fn sql_from(f: &From, db: &[Table], next: &mut usize, col: &dyn Fn(usize) -> String) -> String {
     match f {
         From::Table(t) => {
             let s = format!("t{} AS r{}", t, *next);
             *next += 1;
             s
         }
+        From::Derived(inner, w, items) => {
+            let s = sql_derived(inner, w, items, *next, db);
+            *next += 1;
+            s
+        }
         From::Join(k, l, r, on) => {
-            let ls = sql_from(l, next, col);
+            let ls = sql_from(l, db, next, col);
             // a join on the right-hand side would need parentheses the grammar does not have: the generator only
             // builds left-deep trees; a right-nested tree is printed flat (and then means something else)
-            let rs = sql_from(r, next, col);
+            let rs = sql_from(r, db, next, col);
             let kw = match *k {
                 "inner" => "INNER JOIN",
                 "left" => "LEFT JOIN",
@@ -701,37 +937,52 @@ fn sql_from(f: &From, next: &mut usize, col: &dyn Fn(usize) -> String) -> String
 pub fn sql_stmt(s: &Stmt, db: &[Table]) -> String {
     match s {
         Stmt::Select(q) => {
-            let mut ls = Vec::new();
-            let mut w = 0;
-            leaves(&q.from, db, &mut ls, &mut w);
-            let ls2 = ls.clone();
-            let col = move |i: usize| -> String {
-                for (k, (_, start)) in ls2.iter().enumerate().rev() {
-                    if i >= *start {
-                        return format!("r{}.c{}", k, i - start);
-                    }
-                }
-                format!("r0.c{}", i)
-            };
+            let col = col_namer(&q.from, db);
             let mut out_exprs: Vec<String> = Vec::new();
-            let items: String = if !q.aggs.is_empty() {
-                let mut parts: Vec<String> = q.group_by.iter().map(|e| sql_expr(e, 1, &col)).collect();
+            let is_agg = !q.aggs.is_empty() || !q.group_by.is_empty();
+            // the aggregate row: group keys (in parentheses unless a bare column), then the aggregate calls
+            let mut agg_row: Vec<String> = Vec::new();
+            if is_agg {
+                for k in &q.group_by {
+                    let t = sql_expr(k, 1, &col);
+                    agg_row.push(if matches!(k, E::Col(_) | E::Lit(_)) { t } else { format!("({})", t) });
+                }
                 for a in &q.aggs {
-                    parts.push(match (a.f, &a.arg) {
-                        ("cnt*", _) | (_, None) => "COUNT(*)".to_string(),
-                        ("cnt", Some(e)) => format!("COUNT({})", sql_expr(e, 1, &col)),
-                        ("sum", Some(e)) => format!("SUM({})", sql_expr(e, 1, &col)),
-                        ("avg", Some(e)) => format!("AVG({})", sql_expr(e, 1, &col)),
-                        ("min", Some(e)) => format!("MIN({})", sql_expr(e, 1, &col)),
-                        (_, Some(e)) => format!("MAX({})", sql_expr(e, 1, &col)),
+                    let (name, distinct) = match a.f {
+                        "cnt*" | "cnt" => ("COUNT", false),
+                        "cntd" => ("COUNT", true),
+                        "sum" => ("SUM", false),
+                        "sumd" => ("SUM", true),
+                        "avg" => ("AVG", false),
+                        "avgd" => ("AVG", true),
+                        "min" => ("MIN", false),
+                        "mind" => ("MIN", true),
+                        "max" => ("MAX", false),
+                        _ => ("MAX", true),
+                    };
+                    agg_row.push(match &a.arg {
+                        None => "COUNT(*)".to_string(),
+                        Some(e) => format!("{}({}{})", name, if distinct { "DISTINCT " } else { "" }, sql_expr(e, 1, &col)),
                     });
                 }
-                out_exprs = parts.clone();
-                parts.join(", ")
+            }
+            let agg_row2 = agg_row.clone();
+            let agg_col = move |i: usize| -> String { agg_row2.get(i).cloned().unwrap_or_else(|| "NULL".into()) };
+            let items: String = if is_agg {
+                out_exprs = match &q.items {
+                    None => q
+                        .group_by
+                        .iter()
+                        .map(|k| sql_expr(k, 1, &col))
+                        .chain(agg_row[q.group_by.len()..].iter().cloned())
+                        .collect(),
+                    Some(es) => es.iter().map(|e| sql_expr(e, 1, &agg_col)).collect(),
+                };
+                out_exprs.join(", ")
             } else {
                 match &q.items {
                     None => {
-                        out_exprs = (0..w).map(&col).collect();
+                        out_exprs = (0..from_tys(&q.from, db).len()).map(&col).collect();
                         "*".to_string()
                     }
                     Some(es) => {
@@ -745,7 +996,7 @@ pub fn sql_stmt(s: &Stmt, db: &[Table]) -> String {
                 "SELECT {}{} FROM {}",
                 if q.distinct { "DISTINCT " } else { "" },
                 items,
-                sql_from(&q.from, &mut next, &col)
+                sql_from(&q.from, db, &mut next, &col)
             );
             if let Some(wh) = &q.where_ {
                 sql += &format!(" WHERE {}", sql_expr(wh, 1, &col));
@@ -755,6 +1006,9 @@ pub fn sql_stmt(s: &Stmt, db: &[Table]) -> String {
                     " GROUP BY {}",
                     q.group_by.iter().map(|e| sql_expr(e, 1, &col)).collect::<Vec<_>>().join(", ")
                 );
+            }
+            if let (true, Some(h)) = (is_agg, &q.having) {
+                sql += &format!(" HAVING {}", sql_expr(h, 1, &agg_col));
             }
             if !q.order_by.is_empty() {
                 let parts: Vec<String> = q
@@ -868,6 +1122,10 @@ fn cmp_key(asc: bool, a: &Val, b: &Val) -> std::cmp::Ordering {
         (Val::Null, _) => Greater,
         (_, Val::Null) => Less,
         (Val::Int(x), Val::Int(y)) => x.cmp(y),
+        // values of a DOUBLE column: the integral ones are shown as integers (all far below 2^53)
+        (Val::Int(x), Val::F64(y)) => (*x as f64).partial_cmp(&f64::from_bits(*y)).unwrap_or(Equal),
+        (Val::F64(x), Val::Int(y)) => f64::from_bits(*x).partial_cmp(&(*y as f64)).unwrap_or(Equal),
+        (Val::F64(x), Val::F64(y)) => f64::from_bits(*x).partial_cmp(&f64::from_bits(*y)).unwrap_or(Equal),
         (Val::Bool(x), Val::Bool(y)) => x.cmp(y),
         (Val::Text(x), Val::Text(y)) => x.cmp(y),
         (x, y) => rank(x).cmp(&rank(y)),
@@ -1031,6 +1289,10 @@ struct Gen<'a> {
     /// pipelining (SQL leaves the evaluation order open).  So an error outcome is comparable only if at most one
     /// clause of a single-table statement can fail: every other clause is generated in safe mode.
     safe_arith: bool,
+    /// no CASE below a unary minus: the 32/64-bit kind of `- CASE …` depends on the branch taken
+    no_case: bool,
+    /// no INSERT/UPDATE/DELETE has been generated in this case yet: the tables still hold their initial rows
+    pristine: bool,
 }
 
 #[derive(Clone, Copy, PartialEq)]
@@ -1043,7 +1305,8 @@ enum Profile {
     Nulls,
 }
 
-const WORDS: [&str; 12] = ["", "a", "ab", "abc", "b", "ba", "B", "x", "xy", "a%", "a_c", "zz"];
+const WORDS: [&str; 17] =
+    ["", "a", "ab", "abc", "b", "ba", "B", "x", "xy", "a%", "a_c", "zz", " a", "b  ", "  ", " Ab ", "\tq\t "];
 const PATTERNS: [&str; 14] = ["%", "a%", "%b", "%b%", "_", "a_", "_b%", "abc", "", "%%", "a_c", "__", "x%y", "%a%b%"];
 
 impl<'a> Gen<'a> {
@@ -1101,6 +1364,16 @@ impl<'a> Gen<'a> {
                 let n = if p == Profile::Dups { 3 } else { WORDS.len() };
                 Val::Text(WORDS[self.rng.below(n as u64) as usize].as_bytes().to_vec())
             }
+            // eighths: exactly representable, printed exactly in decimal notation
+            Ty::Double => {
+                let k = match p {
+                    Profile::Dups => self.rng.range(3, 6),
+                    _ => {
+                        if self.rng.chance(1, 8) { self.rng.range(-800000, 800000) } else { self.rng.range(-12, 30) }
+                    }
+                };
+                Val::F64((k as f64 / 8.0).to_bits())
+            }
         }
     }
 
@@ -1111,7 +1384,7 @@ impl<'a> Gen<'a> {
             let t = match p {
                 Profile::Text => *self.rng.pick(&[Ty::Text, Ty::Text, Ty::Int]),
                 Profile::Boundary => *self.rng.pick(&[Ty::Int, Ty::BigInt, Ty::BigInt]),
-                _ => *self.rng.pick(&[Ty::Int, Ty::Int, Ty::BigInt, Ty::Text, Ty::Bool]),
+                _ => *self.rng.pick(&[Ty::Int, Ty::Int, Ty::Int, Ty::BigInt, Ty::BigInt, Ty::Text, Ty::Text, Ty::Bool, Ty::Bool, Ty::Double]),
             };
             tys.push(t);
         }
@@ -1139,7 +1412,12 @@ impl<'a> Gen<'a> {
             self.tag("lit.null");
             return E::Lit(Val::Null);
         }
-        E::Lit(self.val(ty, p, false))
+        // 2^63 - 1 is not an f64: as a literal it only works through the saturating cast of the binder, and
+        // `- 9223372036854775807` is folded to -2^63 by the parser (numbers are lexed as f64: documented assumption)
+        match self.val(ty, p, false) {
+            Val::Int(v) if v == I64_MAX => E::Lit(Val::Int(1 << 62)),
+            v => E::Lit(v),
+        }
     }
 
     fn cols_of(&self, tys: &[Ty], want: &[Ty]) -> Vec<usize> {
@@ -1150,16 +1428,31 @@ impl<'a> Gen<'a> {
         let cols = self.cols_of(tys, &[Ty::Int, Ty::BigInt]);
         let leaf = depth == 0 || self.rng.chance(1, 2) || (self.safe_arith && p == Profile::Boundary);
         if leaf {
+            if !self.cols_of(tys, &[Ty::Text]).is_empty() && self.rng.chance(1, 8) {
+                self.tag("strfn.length");
+                let saved = self.no_case;
+                self.no_case = true;
+                let t = self.text_expr(tys, p);
+                self.no_case = saved;
+                return E::StrFn("length", Box::new(t));
+            }
             if !cols.is_empty() && self.rng.chance(2, 3) {
                 return E::Col(*self.rng.pick(&cols));
             }
             let ty = *self.rng.pick(&[Ty::Int, Ty::BigInt]);
             return self.lit(ty, p);
         }
+        if !self.no_case && self.rng.chance(1, 9) {
+            return self.case_expr(tys, p, 'i', depth - 1);
+        }
         match self.rng.below(8) {
             0 => {
                 self.tag("op.neg");
-                E::Neg(Box::new(self.int_expr(tys, p, depth - 1)))
+                let saved = self.no_case;
+                self.no_case = true;
+                let e = self.int_expr(tys, p, depth - 1);
+                self.no_case = saved;
+                E::Neg(Box::new(e))
             }
             1 => {
                 self.tag("op.pos");
@@ -1183,7 +1476,105 @@ impl<'a> Gen<'a> {
         }
     }
 
+    /// CASE with results of kind `k` ('i' integer, 't' text, 'b' boolean): searched, simple, or the guarded division
+    fn case_expr(&mut self, tys: &[Ty], p: Profile, k: char, depth: u32) -> E {
+        let saved = self.no_case;
+        self.no_case = true; // no CASE inside CASE: keeps the texts short
+        let result = |g: &mut Self| -> E {
+            if g.rng.chance(1, 6) {
+                return E::Lit(Val::Null);
+            }
+            match k {
+                'i' => g.int_expr(tys, p, 0),
+                't' => g.text_expr(tys, p),
+                _ => {
+                    let cols = g.cols_of(tys, &[Ty::Bool]);
+                    if !cols.is_empty() && g.rng.chance(1, 2) { E::Col(*g.rng.pick(&cols)) } else { E::Lit(Val::Bool(g.rng.chance(1, 2))) }
+                }
+            }
+        };
+        let icols = self.cols_of(tys, &[Ty::Int, Ty::BigInt]);
+        let e = if k == 'i' && p != Profile::Boundary && !icols.is_empty() && self.rng.chance(1, 4) {
+            // CASE WHEN c = 0 THEN r ELSE a / c END never divides by zero: only the chosen branch is evaluated
+            self.tag("case.guarded-div");
+            let c = *self.rng.pick(&icols);
+            let op = *self.rng.pick(&["div", "mod"]);
+            let a = self.int_expr(tys, p, 0);
+            E::Case(
+                None,
+                vec![(E::Cmp("eq", Box::new(E::Col(c)), Box::new(E::Lit(Val::Int(0)))), result(self))],
+                Some(Box::new(E::Arith(op, Box::new(a), Box::new(E::Col(c))))),
+            )
+        } else if self.rng.chance(1, 3) {
+            self.tag("case.simple");
+            let tcols = self.cols_of(tys, &[Ty::Text]);
+            let text = !tcols.is_empty() && self.rng.chance(1, 3);
+            let x = if text {
+                E::Col(*self.rng.pick(&tcols))
+            } else if !icols.is_empty() {
+                E::Col(*self.rng.pick(&icols))
+            } else {
+                E::Lit(Val::Int(self.rng.range(0, 3) as i128))
+            };
+            let n = 1 + self.rng.below(3) as usize;
+            let arms = (0..n)
+                .map(|_| {
+                    let v = if text { self.lit(Ty::Text, p) } else { self.lit(Ty::Int, p) };
+                    (v, result(self))
+                })
+                .collect();
+            let els = if self.rng.chance(2, 3) { Some(Box::new(result(self))) } else { None };
+            E::Case(Some(Box::new(x)), arms, els)
+        } else {
+            self.tag("case.searched");
+            let n = 1 + self.rng.below(3) as usize;
+            let arms = (0..n).map(|_| (self.bool_expr(tys, p, depth.min(1)), result(self))).collect();
+            let els = if self.rng.chance(2, 3) { Some(Box::new(result(self))) } else { None };
+            E::Case(None, arms, els)
+        };
+        self.no_case = saved;
+        e
+    }
+
     fn text_expr(&mut self, tys: &[Ty], p: Profile) -> E {
+        if !self.no_case && self.rng.chance(1, 10) {
+            return self.case_expr(tys, p, 't', 0);
+        }
+        if self.rng.chance(1, 5) {
+            return self.str_fn_expr(tys, p);
+        }
+        self.text_atom(tys, p)
+    }
+
+    /// UPPER / LOWER / LTRIM / RTRIM of a text (now and then of another such call), or a concatenation
+    fn str_fn_expr(&mut self, tys: &[Ty], p: Profile) -> E {
+        let a = self.text_atom(tys, p);
+        let k = self.rng.below(6) as usize;
+        if k < 4 {
+            let f = STR_FNS[[0, 1, 3, 4][k]];
+            self.tag(&format!("strfn.{}", f));
+            let inner = if self.rng.chance(1, 4) {
+                let g = *self.rng.pick(&["upper", "lower", "ltrim", "rtrim"]);
+                self.tag("strfn.nested");
+                E::StrFn(g, Box::new(a))
+            } else {
+                a
+            };
+            E::StrFn(f, Box::new(inner))
+        } else {
+            self.tag("strfn.concat");
+            let b = self.text_atom(tys, p);
+            let ab = E::Concat(Box::new(a), Box::new(b));
+            if self.rng.chance(1, 4) {
+                let c = self.text_atom(tys, p);
+                if self.rng.chance(1, 2) { E::Concat(Box::new(ab), Box::new(c)) } else { E::Concat(Box::new(c), Box::new(ab)) }
+            } else {
+                ab
+            }
+        }
+    }
+
+    fn text_atom(&mut self, tys: &[Ty], p: Profile) -> E {
         let cols = self.cols_of(tys, &[Ty::Text]);
         if !cols.is_empty() && self.rng.chance(2, 3) {
             E::Col(*self.rng.pick(&cols))
@@ -1192,12 +1583,23 @@ impl<'a> Gen<'a> {
         }
     }
 
+    /// a DOUBLE column or a decimal literal
+    fn dbl_operand(&mut self, tys: &[Ty], p: Profile) -> E {
+        let dcols = self.cols_of(tys, &[Ty::Double]);
+        if !dcols.is_empty() && self.rng.chance(1, 3) { E::Col(*self.rng.pick(&dcols)) } else { self.lit(Ty::Double, p) }
+    }
+
     /// a scalar of a random comparable type with a second scalar of the same type
     fn same_type_pair(&mut self, tys: &[Ty], p: Profile, depth: u32) -> (E, E, &'static str) {
         let has_text = !self.cols_of(tys, &[Ty::Text]).is_empty();
         let has_bool = !self.cols_of(tys, &[Ty::Bool]).is_empty();
         let k = self.rng.below(10);
-        if has_text && k < 3 {
+        let dcols = self.cols_of(tys, &[Ty::Double]);
+        if !dcols.is_empty() && self.rng.chance(1, 4) {
+            // DOUBLE values are only compared, with each other and with decimal literals
+            let a = E::Col(*self.rng.pick(&dcols));
+            (a, self.dbl_operand(tys, p), "dbl")
+        } else if has_text && k < 3 {
             (self.text_expr(tys, p), self.text_expr(tys, p), "text")
         } else if has_bool && k == 3 {
             let cols = self.cols_of(tys, &[Ty::Bool]);
@@ -1209,7 +1611,34 @@ impl<'a> Gen<'a> {
         }
     }
 
+    /// `column op literal` across type categories (number vs text vs boolean): a type error of the statement
+    fn cross_type_cmp(&mut self, tys: &[Ty]) -> E {
+        let c = self.rng.below(tys.len() as u64) as usize;
+        let lit = match tys[c] {
+            Ty::Int | Ty::BigInt | Ty::Double => {
+                if self.rng.chance(1, 2) { Val::Text(b"x".to_vec()) } else { Val::Bool(true) }
+            }
+            Ty::Text => {
+                if self.rng.chance(1, 2) { Val::Int(self.rng.range(0, 3) as i128) } else { Val::Bool(false) }
+            }
+            Ty::Bool => {
+                if self.rng.chance(1, 2) { Val::Int(1) } else { Val::Text(b"t".to_vec()) }
+            }
+        };
+        let op = *self.rng.pick(&CMP_OPS);
+        self.tag(&format!("cmp.cross-type.{}", op));
+        match self.rng.below(4) {
+            0 => E::Cmp(op, Box::new(E::Lit(lit)), Box::new(E::Col(c))),
+            1 => E::Between(self.rng.chance(1, 2), Box::new(E::Col(c)), Box::new(E::Lit(lit.clone())), Box::new(E::Lit(lit))),
+            2 => E::InList(self.rng.chance(1, 2), Box::new(E::Col(c)), vec![E::Lit(lit)]),
+            _ => E::Cmp(op, Box::new(E::Col(c)), Box::new(E::Lit(lit))),
+        }
+    }
+
     fn bool_expr(&mut self, tys: &[Ty], p: Profile, depth: u32) -> E {
+        if depth > 0 && !self.no_case && self.rng.chance(1, 12) {
+            return self.case_expr(tys, p, 'b', depth - 1);
+        }
         let k = if depth == 0 { self.rng.below(7) + 3 } else { self.rng.below(10) };
         match k {
             0 => {
@@ -1237,8 +1666,10 @@ impl<'a> Gen<'a> {
             5 => {
                 let neg = self.rng.chance(1, 2);
                 self.tag(if neg { "op.notnull" } else { "op.isnull" });
+                let dcols = self.cols_of(tys, &[Ty::Double]);
                 let e = match self.rng.below(3) {
                     0 => self.text_expr(tys, p),
+                    1 if !dcols.is_empty() => E::Col(*self.rng.pick(&dcols)),
                     _ => self.int_expr(tys, p, depth.min(1)),
                 };
                 E::IsNull(neg, Box::new(e))
@@ -1249,6 +1680,7 @@ impl<'a> Gen<'a> {
                 let hi = match t {
                     "text" => self.text_expr(tys, p),
                     "bool" => self.lit(Ty::Bool, p),
+                    "dbl" => self.dbl_operand(tys, p),
                     _ => self.int_expr(tys, p, depth.min(1)),
                 };
                 self.tag(&format!("{}.{}", if neg { "op.nbtw" } else { "op.btw" }, t));
@@ -1262,6 +1694,7 @@ impl<'a> Gen<'a> {
                     xs.push(match t {
                         "text" => self.text_expr(tys, p),
                         "bool" => self.lit(Ty::Bool, p),
+                        "dbl" => self.dbl_operand(tys, p),
                         _ => self.int_expr(tys, p, 0),
                     });
                 }
@@ -1297,7 +1730,61 @@ impl<'a> Gen<'a> {
     }
 
     /// left-deep join tree over 1–3 table occurrences
+    /// a derived table over `inner`: some of its columns in some order, now and then a computed column, half of the
+    /// time with a WHERE of its own.  Everything inside is generated in safe mode (it cannot raise an error), and every
+    /// output column has a type (an untyped NULL column is left to the engine's discretion).
+    fn derived_over(&mut self, inner: From, db: &[Table], p: Profile) -> From {
+        let tys = from_tys(&inner, db);
+        if tys.is_empty() {
+            return inner;
+        }
+        self.tag("from.derived");
+        if has_join(&inner) {
+            self.tag("from.derived.over-join");
+        }
+        if matches!(inner, From::Derived(..)) {
+            self.tag("from.derived.nested");
+        }
+        let saved = self.safe_arith;
+        self.safe_arith = true;
+        let w = if self.rng.chance(1, 2) {
+            self.tag("from.derived.where");
+            Some(self.bool_expr(&tys, p, 1))
+        } else {
+            None
+        };
+        let n = 1 + self.rng.below(tys.len() as u64 + 1) as usize;
+        let mut items = Vec::new();
+        for _ in 0..n {
+            let e = if self.rng.chance(3, 4) {
+                E::Col(self.rng.below(tys.len() as u64) as usize)
+            } else {
+                self.tag("from.derived.expr");
+                match self.rng.below(3) {
+                    0 => self.int_expr(&tys, p, 1),
+                    1 => self.bool_expr(&tys, p, 1),
+                    _ => self.text_expr(&tys, p),
+                }
+            };
+            items.push(if expr_ty(&e, &tys).is_none() { E::Col(0) } else { e });
+        }
+        self.safe_arith = saved;
+        From::Derived(Box::new(inner), w, items)
+    }
+
+    /// one operand of FROM: a table, now and then wrapped in a derived table
+    fn leaf(&mut self, db: &[Table], p: Profile) -> From {
+        let t = From::Table(self.rng.below(db.len() as u64) as usize);
+        if self.rng.chance(1, 6) { self.derived_over(t, db, p) } else { t }
+    }
+
     fn from(&mut self, db: &[Table], p: Profile, max_tables: usize) -> From {
+        let f = self.from_tree(db, p, max_tables);
+        // the whole FROM as a derived table (over a join, or a derived table of a derived table)
+        if self.rng.chance(1, 12) { self.derived_over(f, db, p) } else { f }
+    }
+
+    fn from_tree(&mut self, db: &[Table], p: Profile, max_tables: usize) -> From {
         let n = 1 + self.rng.below(max_tables as u64) as usize;
         self.safe_arith = true;
         let mut f = From::Table(self.rng.below(db.len() as u64) as usize);
@@ -1340,12 +1827,15 @@ impl<'a> Gen<'a> {
                 return f;
             }
         }
+        if self.rng.chance(1, 6) {
+            f = self.derived_over(f, db, p);
+        }
         for _ in 1..n {
-            let t = self.rng.below(db.len() as u64) as usize;
+            let right = self.leaf(db, p);
             let kind = *self.rng.pick(&["inner", "inner", "left", "right", "full", "cross"]);
             self.tag(&format!("join.{}", kind));
             let ltys = from_tys(&f, db);
-            let joined = From::Join(kind, Box::new(f.clone()), Box::new(From::Table(t)), None);
+            let joined = From::Join(kind, Box::new(f.clone()), Box::new(right.clone()), None);
             let tys = from_tys(&joined, db);
             let on = if kind == "cross" {
                 None
@@ -1389,7 +1879,7 @@ impl<'a> Gen<'a> {
                     self.tag("join.on.oneside");
                 }
             }
-            f = From::Join(kind, Box::new(f), Box::new(From::Table(t)), on);
+            f = From::Join(kind, Box::new(f), Box::new(right), on);
         }
         f
     }
@@ -1397,25 +1887,43 @@ impl<'a> Gen<'a> {
     fn select(&mut self, db: &[Table], p: Profile) -> Select {
         let max_tables = if self.rng.chance(1, 3) { 3 } else { 1 };
         let from = self.from(db, p, max_tables);
-        let multi = matches!(from, From::Join(..));
+        let multi = has_join(&from);
         self.tag(if multi { "multi-table" } else { "single-table" });
         // shape of the rest of the statement, decided first because it determines which clause may fail
         let kind = self.rng.below(10); // < 3: aggregate query
         let order_kind = self.rng.below(10); // < 3 partial order, < 6 total order (+ limit), else none
         let limit_kind = self.rng.below(4);
-        let has_limit = kind >= 3 && (3..6).contains(&order_kind) && limit_kind < 3;
+        let has_limit = (3..6).contains(&order_kind) && limit_kind < 3;
         // the one clause that may raise an arithmetic error: 0 = none, 1 = WHERE, 2 = output (items / keys), 3 = aggregate arguments
-        let risky = if multi {
+        // (a WHERE inside a derived table is merged with the outer one: a row it rejects may still meet the outer predicate)
+        let risky = if multi || has_derived_where(&from) {
             0
         } else if has_limit {
             self.rng.below(2)
         } else {
             self.rng.below(4)
         };
+        // the select list of a plain query under ORDER BY is evaluated in sorted order by the engine, in table order by
+        // the spec: if several rows fail differently the reported error differs, so the list is generated safe
+        let risky = if risky == 2 && kind >= 3 && order_kind < 6 { 0 } else { risky };
         let tys = from_tys(&from, db);
         let depth = self.rng.range(0, 3) as u32;
         self.safe_arith = risky != 1;
-        let where_ = if self.rng.chance(4, 5) {
+        // a cross-category comparison as the whole WHERE of a single-table statement whose table has a row on which
+        // both sides are non-NULL: the engine meets it for certain (it checks when it evaluates)
+        let cross = matches!(from, From::Table(_)) && self.pristine && self.rng.chance(1, 40);
+        let where_ = if cross {
+            let mut w = self.cross_type_cmp(&tys);
+            let t = match &from { From::Table(t) => *t, _ => 0 };
+            let mut cols = Vec::new();
+            expr_cols(&w, &mut cols);
+            let reachable = db[t].rows.iter().any(|r| cols.iter().all(|c| r[*c] != Val::Null));
+            if !reachable {
+                self.tags.retain(|t| !t.starts_with("cmp.cross-type"));
+                w = self.bool_expr(&tys, p, 0);
+            }
+            Some(w)
+        } else if self.rng.chance(4, 5) {
             self.tag("where");
             Some(self.bool_expr(&tys, p, depth))
         } else {
@@ -1431,48 +1939,149 @@ impl<'a> Gen<'a> {
             order_by: vec![],
             limit: None,
             offset: None,
+            having: None,
         };
+        let nout;
+        // output columns holding an AVG (a double): not usable as sort keys by the comparator of the harness
+        let mut avg_out: Vec<usize> = Vec::new();
         if kind < 3 {
             // aggregate query
             self.tag("agg");
             self.safe_arith = risky != 2;
+            // kinds of the columns of the aggregate row: i integer, t text, b boolean, s SUM (a double in the engine:
+            // compared, never divided), v AVG (only shown)
+            let mut kinds: Vec<char> = Vec::new();
+            let kind_of = |t: Ty| match t {
+                Ty::Int | Ty::BigInt => 'i',
+                Ty::Text => 't',
+                Ty::Bool => 'b',
+                // shown only (like AVG)
+                Ty::Double => 'v',
+            };
             let nkeys = self.rng.below(3) as usize;
             for _ in 0..nkeys {
                 let k = match self.rng.below(4) {
-                    0 => self.int_expr(&tys, p, 1),
-                    _ => E::Col(self.rng.below(tys.len() as u64) as usize),
+                    0 => {
+                        kinds.push('i');
+                        self.int_expr(&tys, p, 1)
+                    }
+                    _ => {
+                        let c = self.rng.below(tys.len() as u64) as usize;
+                        kinds.push(kind_of(tys[c]));
+                        E::Col(c)
+                    }
                 };
                 q.group_by.push(k);
             }
             self.tag(&format!("groupby.{}", nkeys));
             self.safe_arith = risky != 3;
             let small = p != Profile::Boundary;
-            for _ in 0..(1 + self.rng.below(3)) {
-                let f = *self.rng.pick(&["cnt*", "cnt", "sum", "avg", "min", "max"]);
+            let naggs = if nkeys > 0 && self.rng.chance(1, 8) { 0 } else { 1 + self.rng.below(3) };
+            if naggs == 0 {
+                self.tag("agg.none");
+            }
+            for _ in 0..naggs {
+                let f = *self.rng.pick(&["cnt*", "cnt", "sum", "avg", "min", "max", "cntd", "cntd", "sumd", "avgd", "mind"]);
+                let mut kind = 'i';
                 let arg = match f {
                     "cnt*" => None,
-                    "sum" | "avg" => {
+                    "sum" | "avg" | "sumd" | "avgd" => {
+                        kind = if f.starts_with("sum") { 's' } else { 'v' };
                         if small {
                             Some(self.int_expr(&tys, p, 1))
                         } else {
                             // sums of boundary values are kept to single columns of INT type (no 64-bit overflow)
                             let cols = self.cols_of(&tys, &[Ty::Int]);
-                            Some(E::Col(*self.rng.pick(&cols)))
+                            // (a derived table need not have an INT column)
+                            Some(if cols.is_empty() { E::Lit(Val::Int(1)) } else { E::Col(*self.rng.pick(&cols)) })
                         }
                     }
                     _ => Some(match self.rng.below(3) {
                         0 => self.int_expr(&tys, p, 1),
-                        _ => E::Col(self.rng.below(tys.len() as u64) as usize),
+                        _ => {
+                            let c = self.rng.below(tys.len() as u64) as usize;
+                            if f.starts_with("m") {
+                                kind = kind_of(tys[c]);
+                            }
+                            E::Col(c)
+                        }
                     }),
                 };
+                kinds.push(kind);
                 self.tag(&format!("agg.{}", f));
                 q.aggs.push(Agg { f, arg });
             }
-            return q;
-        }
+            // expressions over the aggregate row: never failing (small counts and values), SUM only compared
+            let numeric: Vec<usize> =
+                (0..kinds.len()).filter(|i| kinds[*i] == 'i' && (small || *i >= nkeys && q.aggs[*i - nkeys].f.starts_with("cnt"))).collect();
+            let comparable: Vec<usize> = (0..kinds.len()).filter(|i| kinds[*i] == 'i' || kinds[*i] == 's').collect();
+            let over_row = |g: &mut Self, want_bool: bool| -> E {
+                if want_bool && comparable.is_empty() {
+                    let c = g.rng.below(kinds.len() as u64) as usize;
+                    return E::IsNull(g.rng.chance(1, 2), Box::new(E::Col(c)));
+                }
+                if want_bool {
+                    let c = *g.rng.pick(&comparable);
+                    let op = *g.rng.pick(&CMP_OPS);
+                    let lit = E::Lit(Val::Int(g.rng.range(-2, 4) as i128));
+                    if g.rng.chance(1, 5) {
+                        return E::IsNull(g.rng.chance(1, 2), Box::new(E::Col(c)));
+                    }
+                    return E::Cmp(op, Box::new(E::Col(c)), Box::new(lit));
+                }
+                if !numeric.is_empty() && g.rng.chance(1, 2) {
+                    let c = *g.rng.pick(&numeric);
+                    let op = *g.rng.pick(&["add", "sub", "mul"]);
+                    let lit = E::Lit(Val::Int(g.rng.range(1, 3) as i128));
+                    return if g.rng.chance(1, 2) {
+                        E::Arith(op, Box::new(E::Col(c)), Box::new(lit))
+                    } else {
+                        E::Arith(op, Box::new(lit), Box::new(E::Col(c)))
+                    };
+                }
+                E::Col(g.rng.below(kinds.len() as u64) as usize)
+            };
+            if self.rng.chance(1, 3) {
+                self.tag("having");
+                let h = over_row(self, true);
+                q.having = Some(if self.rng.chance(1, 3) {
+                    let h2 = over_row(self, true);
+                    if self.rng.chance(1, 2) { E::And(Box::new(h), Box::new(h2)) } else { E::Or(Box::new(h), Box::new(h2)) }
+                } else {
+                    h
+                });
+            }
+            if self.rng.chance(1, 2) {
+                // a select list of its own over the aggregate row: any order, repeated columns, arithmetic, predicates
+                self.tag("agg.select-list");
+                let n = self.rng.range(1, 3) as usize;
+                let mut items: Vec<E> = (0..n)
+                    .map(|_| {
+                        let b = self.rng.chance(1, 5);
+                        over_row(self, b)
+                    })
+                    .collect();
+                // an aggregate that occurs nowhere in the text does not exist for the engine: show the unused ones
+                let mut used = Vec::new();
+                for e in items.iter().chain(q.having.iter()) {
+                    expr_cols(e, &mut used);
+                }
+                for j in nkeys..kinds.len() {
+                    if !used.contains(&j) {
+                        items.push(E::Col(j));
+                    }
+                }
+                let n = items.len();
+                nout = n;
+                avg_out = (0..n).filter(|i| matches!(&items[*i], E::Col(c) if kinds[*c] == 'v')).collect();
+                q.items = Some(items);
+            } else {
+                nout = kinds.len();
+                avg_out = (0..nout).filter(|i| kinds[*i] == 'v').collect();
+            }
+        } else {
         // projection
         self.safe_arith = risky != 2;
-        let nout;
         if self.rng.chance(1, 2) {
             nout = tys.len();
         } else {
@@ -1494,23 +2103,24 @@ impl<'a> Gen<'a> {
             nout = n;
             q.items = Some(items);
         }
+        }
         if self.rng.chance(1, 4) {
             self.tag("distinct");
             q.distinct = true;
         }
-        let k = order_kind;
-        if k < 3 {
+        let k = if !avg_out.is_empty() && (3..6).contains(&order_kind) { 0 } else { order_kind };
+        if k < 3 && avg_out.len() < nout {
             // partial order, no limit: ties are free
             self.tag("orderby.partial");
             let n = 1 + self.rng.below(2.min(nout as u64)) as usize;
-            let mut pos: Vec<usize> = (0..nout).collect();
+            let mut pos: Vec<usize> = (0..nout).filter(|i| !avg_out.contains(i)).collect();
             self.rng.shuffle(&mut pos);
             for p in pos.into_iter().take(n) {
                 let asc = self.rng.chance(1, 2);
                 self.tag(if asc { "orderby.asc" } else { "orderby.desc" });
                 q.order_by.push((p, asc));
             }
-        } else if k < 6 {
+        } else if (3..6).contains(&k) {
             // total order over all output columns, so that LIMIT / OFFSET have exactly one answer
             self.tag("orderby.total");
             let mut pos: Vec<usize> = (0..nout).collect();
@@ -1541,6 +2151,7 @@ impl<'a> Gen<'a> {
     }
 
     fn dml(&mut self, db: &[Table], p: Profile) -> Vec<Stmt> {
+        self.pristine = false;
         let t = self.rng.below(db.len() as u64) as usize;
         let tys = db[t].tys.clone();
         let depth = self.rng.range(0, 2) as u32;
@@ -1568,6 +2179,7 @@ impl<'a> Gen<'a> {
                         Ty::Int | Ty::BigInt => self.int_expr(&tys, p, 1),
                         Ty::Text => self.text_expr(&tys, p),
                         Ty::Bool => self.bool_expr(&tys, p, 0),
+                        Ty::Double => self.dbl_operand(&tys, p),
                     };
                     sets.push((c, e));
                 }
@@ -1588,6 +2200,7 @@ impl<'a> Gen<'a> {
             order_by: vec![],
             limit: None,
             offset: None,
+            having: None,
         });
         vec![s, check]
     }
@@ -1597,8 +2210,8 @@ fn expr_cols(e: &E, out: &mut Vec<usize>) {
     match e {
         E::Lit(_) => {}
         E::Col(i) => out.push(*i),
-        E::Not(a) | E::Neg(a) | E::Pos(a) | E::IsNull(_, a) => expr_cols(a, out),
-        E::And(a, b) | E::Or(a, b) | E::Cmp(_, a, b) | E::Arith(_, a, b) | E::Like(_, a, b) => {
+        E::Not(a) | E::Neg(a) | E::Pos(a) | E::IsNull(_, a) | E::StrFn(_, a) => expr_cols(a, out),
+        E::And(a, b) | E::Or(a, b) | E::Cmp(_, a, b) | E::Arith(_, a, b) | E::Like(_, a, b) | E::Concat(a, b) => {
             expr_cols(a, out);
             expr_cols(b, out)
         }
@@ -1611,6 +2224,18 @@ fn expr_cols(e: &E, out: &mut Vec<usize>) {
             expr_cols(a, out);
             for x in xs {
                 expr_cols(x, out)
+            }
+        }
+        E::Case(x, arms, els) => {
+            if let Some(x) = x {
+                expr_cols(x, out)
+            }
+            for (c, r) in arms {
+                expr_cols(c, out);
+                expr_cols(r, out)
+            }
+            if let Some(e) = els {
+                expr_cols(e, out)
             }
         }
     }
@@ -1629,6 +2254,8 @@ fn top_op(e: &E) -> &'static str {
         E::IsNull(..) => "isnull",
         E::Between(..) => "between",
         E::InList(..) => "in",
+        E::Case(..) => "case",
+        E::StrFn(..) | E::Concat(..) => "strfn",
     }
 }
 
@@ -1664,7 +2291,7 @@ fn predicate_tags(kind: &str, e: &E, from: &From, db: &[Table], tags: &mut BTree
 }
 
 fn gen_line(rng: &mut Rng, nstmts: usize) -> Case {
-    let mut g = Gen { rng, tags: BTreeSet::new(), safe_arith: false };
+    let mut g = Gen { rng, tags: BTreeSet::new(), safe_arith: false, no_case: false, pristine: true };
     let (p, pname) = *g.rng.pick(&[
         (Profile::Small, "small"),
         (Profile::Small, "small"),
